@@ -83,17 +83,17 @@ impl<L: Language, N: Analysis<L>> EGraph<L, N> {
         let c = self.classes.get_mut(&id).unwrap();
         let grp = &c.group;
 
-        let mut final_cap = cap.clone();
-
-        // d is a newly redundant slot.
-        for d in &c.slots - &cap {
-            // if d is redundant, then also the orbit of d is redundant.
-            final_cap = &final_cap - &grp.orbit(d);
-        }
-
         c.slots = cap.clone();
-        let generators = c.group.generators();
+        let all_generators = c.group.generators();
         let _ = c;
+        let _ = grp;
+
+        // If a slot is redundant, so is its whole orbit: a generator that moves a kept slot onto a dropped
+        // one proves a further redundancy. Such generators cannot be restricted to `cap`;
+        // they are re-asserted as unions below, which shrinks again with the generator's own proof.
+        let (generators, moved): (Vec<ProvenPerm>, Vec<ProvenPerm>) = all_generators
+            .into_iter()
+            .partition(|pp| cap.iter().all(|x| cap.contains(&pp.elem[*x])));
 
         let restrict_proven = |proven_perm: ProvenPerm| {
             if CHECKS {
@@ -130,6 +130,17 @@ impl<L: Language, N: Analysis<L>> EGraph<L, N> {
         c.group = Group::new(&identity, generators);
 
         self.touched_class(from.id, PendingType::Full);
+
+        for pp in moved {
+            let l = self.mk_sem_identity_applied_id(id);
+            let m: SlotMap = cap.iter().map(|x| (*x, pp.elem[*x])).collect();
+            let r = AppliedId::new(id, m);
+            #[cfg(feature = "explanations")]
+            let prf = pp.proof.clone();
+            #[cfg(not(feature = "explanations"))]
+            let prf = ();
+            self.union_internal(&l, &r, prf);
+        }
     }
 
     pub(crate) fn rebuild(&mut self) {
